@@ -89,17 +89,19 @@ def check_program(shard, prog, argv, choices_list, exhaustive=True, nctx=4):
             data = inputs.guided_input(m, choices)
             if not data:
                 continue
-            chunks = [data[i:i + 1] for i in range(len(data))]
-            try:
-                want, _ = trace.am_calls(m, chunks, call_end=info.eof, indirect=info.indirect)
-            except am_mod.Undefined:
-                shard.event("walk_undefined")
-                continue
-            except am_mod.Spin:
-                shard.event("walk_spin_skipped")
-                continue
-            plans.append((data, want))
-            sc.b += trace.script_for(chunks, call_end=info.eof, move=True).b
+            # byte per call, the whole input in one call, and two halves: the C must follow the machine inside a chunk too
+            half = len(data) // 2
+            for chunks in ([data[i:i + 1] for i in range(len(data))], [data], [data[:half], data[half:]] if half else [data]):
+                try:
+                    want, _ = trace.am_calls(m, chunks, call_end=info.eof, indirect=info.indirect)
+                except am_mod.Undefined:
+                    shard.event("walk_undefined")
+                    continue
+                except am_mod.Spin:
+                    shard.event("walk_spin_skipped")
+                    continue
+                plans.append((data, want))
+                sc.b += trace.script_for(chunks, call_end=info.eof, move=True).b
         if plans:
             runs = run_driver(binary, sc, replay)
             for (data, want), run in zip(plans, runs):
@@ -211,7 +213,7 @@ def case_strategy(draw, tier):
                         kinds={"yield": 2 if mode in ("yield", "both") else 0})
     prog = draw(gen.program(cfg))
     argv = list(prog.argv) + draw(options.codegen_options(indirect=True if mode in ("yield", "both") else None))
-    choices = draw(st.lists(st.lists(st.integers(0, 4095), min_size=1, max_size=20), min_size=1, max_size=4))
+    choices = draw(st.lists(st.lists(st.integers(0, 4095), min_size=2, max_size=24), min_size=4, max_size=8))
     return prog, argv, choices
 
 
